@@ -1539,6 +1539,15 @@ class Exec:
         m = re.match(r'^\{closure@[^}]*\}$', rv)
         if m:
             return Opaque(rv)
+        m = re.match(r'^(\{coroutine@[^}]*\}) \{ (.*) \}$', rv)
+        if m:
+            fields = split_top(m.group(2))
+            vals, names = {}, []
+            for i, fl in enumerate(fields):
+                k, v = fl.split(': ', 1)
+                names.append(k)
+                vals[i] = self.operand(f, loc, v)
+            return Agg('{coroutine}|' + ','.join(names), vals)
         m = re.match(r'^(\{closure@[^}]*\}) \{ (.*) \}$', rv) or re.match(r'^(\{closure@[^}]*\})\((.*)\)$', rv)
         if m:
             fields = split_top(m.group(2))
